@@ -328,6 +328,12 @@ class Index:
             return out if isinstance(expr, ast.List) else tuple(out)
         if isinstance(expr, ast.Constant):
             return expr.value
+        if cls is not None and isinstance(expr, ast.Attribute) and isinstance(expr.value, ast.Name) and expr.value.id in ("cls", "self"):
+            # a class-level constant (cls.COLUMNS = (...)), looked up along the MRO and evaluated in its defining module
+            for c_ in self.mro(cls):
+                if expr.attr in c_.attrs:
+                    return self.eval_const(c_.module, c_.attrs[expr.attr], None, _depth + 1, cls=c_)
+            raise AnalysisError("class attribute %s is not a constant" % expr.attr)
         if isinstance(expr, ast.Name):
             if env and expr.id in env:
                 return env[expr.id]
